@@ -123,7 +123,7 @@ fn effect_count(a: &Ast) -> (usize, usize) {
     // (assignments, user-function calls) — syntactic
     use Ast::*;
     match a {
-        Lit(_) | Var(_) | Empty | Malformed(_) => (0, 0),
+        Lit(_) | Var(_) | Empty | Opaque(_) | Malformed(_) => (0, 0),
         Call(n, x) => {
             let (a1, c1) = effect_count(x);
             (a1, c1 + if n.starts_with("rec") || n.starts_with("fail") { 1 } else { 0 })
